@@ -21,7 +21,7 @@ BUDGET = {"quick": 50, "thorough": 800}
 
 def run_shard(ctx):
     logging.getLogger("pymoca").setLevel(logging.ERROR)
-    for k in range(ctx.n(1200, 40000)):
+    for k in range(ctx.n(4000, 40000)):
         if ctx.out_of_time():
             break
         ctx.guarded(c14.one, ctx, ctx.rng, k, "C15", timeout=120)
